@@ -1,8 +1,9 @@
 // implrun: runs the implementation (/repo's working tree, linked through `replace`) on
 // generated inputs and writes, per suite, three line-aligned files:
-//   cases.txt   "<entry> <input sx>"     (fed to the extracted model)
-//   impl.out    "<output sx>"            (what the Go code did)
-//   tags.txt    "<tag,tag,...>"          (shape tags for the input-distribution histogram)
+//
+//	cases.txt   "<entry> <input sx>"     (fed to the extracted model)
+//	impl.out    "<output sx>"            (what the Go code did)
+//	tags.txt    "<tag,tag,...>"          (shape tags for the input-distribution histogram)
 package main
 
 import (
@@ -27,6 +28,21 @@ type Ctx struct {
 }
 
 func (c *Ctx) Quick() bool { return c.Tier != "thorough" }
+
+// Safe runs the implementation for one case; a panic (the process would have died) becomes the
+// observable (panic <message>) instead of killing the whole run.
+func Safe(f func() sx.V) (out sx.V) {
+	defer func() {
+		if r := recover(); r != nil {
+			msg := fmt.Sprint(r)
+			if len(msg) > 200 {
+				msg = msg[:200]
+			}
+			out = sx.L(sx.S("panic"), sx.S(msg))
+		}
+	}()
+	return f()
+}
 
 // Emit records one case: the model entry to call, its input, and the implementation's output.
 func (c *Ctx) Emit(entry string, in sx.V, out sx.V, tags ...string) {
